@@ -40,7 +40,7 @@ def it(a):
 # ----------------------------------------------------------------------------- CP / Tucker regressors
 def draw_reg(c, seed):
     xs, ys, n = tuple(c["xs"]), tuple(c["ys"]), c["n"]
-    rng = _rng(seed, 30, c["model"] == "cp", n, c["rank"], c["reg"], c["k"], REGOPT[c["opt"]][2], len(ys), *xs)
+    rng = _rng(seed, 30, c["model"] == "cp", n, c["rank"], c["reg"], c["k"], REGOPT[c["opt"]][2], c.get("ux", 0) + 100, c.get("uy", 0) + 100, len(ys), *xs)
     X = rng.integers(-3, 4, size=(n,) + xs).astype(float)
     Wtrue = rng.integers(-2, 3, size=xs + ys).astype(float) / 2.0
     y = np.tensordot(X, Wtrue, axes=(list(range(1, X.ndim)), list(range(len(xs))))) + 0.1 * rng.standard_normal((n,) + ys)
@@ -72,6 +72,7 @@ def data_form(a, form):
 
 
 REG_FORMS = ["float32", "int64", "int32", "uint8", "fortran", "strided"]
+FLOAT_FORMS = ["float32", "fortran", "strided"]      # integer arrays cannot hold data in other units
 
 
 def exec_reg(case):
@@ -82,6 +83,8 @@ def exec_reg(case):
     from tensorly.tucker_tensor import tucker_to_tensor
     c = case["cfg"]
     X, y, Xnew, rs = draw_reg(c, case["seed"])
+    ux, uy = 2.0 ** c["ux"], 2.0 ** c["uy"]          # units (powers of two: every rescaling below is exact)
+    based = c["ux"] == 0 and c["uy"] == 0
     ev = {"id": case["id"], "kind": "reg", "cfg": c, "xnew": it(Xnew)}
     blank = {"weight": EMPTY, "pred": EMPTY, "vec": EMPTY, "dense": EMPTY, "factors": {"fs": [], "w": []}, "forms": [], "refit": {"raised": True}}
     tol, nmax, _ = REGOPT[c["opt"]]
@@ -90,32 +93,33 @@ def exec_reg(case):
             est = CPRegressor(weight_rank=c["rank"], reg_W=c["reg"] / 10.0, n_iter_max=nmax, tol=tol, random_state=rs, verbose=0)
         else:
             est = TuckerRegressor(weight_ranks=list(c["ranks"]), reg_W=c["reg"] / 10.0, n_iter_max=nmax, tol=tol, random_state=rs, verbose=0)
-        est.fit(tl.tensor(X), tl.tensor(y))
+        est.fit(tl.tensor(X * ux), tl.tensor(y * uy))
     except Exception as ex:
         ev.update(blank)
         ev["fit"] = {"raised": True, "exc": type(ex).__name__, "msg": str(ex)[:120]}
         return ev
     ev["fit"] = {"raised": False, "n_iter": int(est.n_iterations_), "exit": "cap" if int(est.n_iterations_) >= nmax else "converged"}
     try:
-        ev["weight"] = qt(est.weight_tensor_)
-        ev["vec"] = qt(est.vec_W_)
+        wu = ux / uy                                    # weights carry unit(Y) / unit(X)
+        ev["weight"] = qt(np.asarray(est.weight_tensor_) * wu)
+        ev["vec"] = qt(np.asarray(est.vec_W_) * wu)
         if c["model"] == "cp":
             w, fs = est.cp_weight_
-            ev["factors"] = {"fs": [qt(f) for f in fs], "w": qt(w)["data"]}
-            ev["dense"] = qt(cp_to_tensor((w, fs)))
+            ev["factors"] = {"fs": [qt(f) for f in fs], "w": qt(w)["data"]} if based else {"fs": [], "w": []}
+            ev["dense"] = qt(np.asarray(cp_to_tensor((w, fs))) * wu)
         else:
             G, fs = est.tucker_weight_
-            ev["factors"] = {"fs": [qt(f) for f in fs], "core": qt(G)}
-            ev["dense"] = qt(tucker_to_tensor((G, fs)))
-        ev["pred"] = qt(est.predict(tl.tensor(Xnew)))
+            ev["factors"] = {"fs": [qt(f) for f in fs], "core": qt(G)} if based else {"fs": [], "w": []}
+            ev["dense"] = qt(np.asarray(tucker_to_tensor((G, fs))) * wu)
+        ev["pred"] = qt(np.asarray(est.predict(tl.tensor(Xnew * ux))) / uy)
         # the same kind of samples in other dtypes / layouts: 4 random samples + the last one-hot sample
         sub = np.concatenate([Xnew[:4], Xnew[-1:]], axis=0)
         forms = []
-        for form in REG_FORMS:
+        for form in (REG_FORMS if based else FLOAT_FORMS):
             xf = data_form(sub, form)
             run = {"form": form, "x": it(xf), "raised": False, "pred": EMPTY}
             try:
-                run["pred"] = qt(est.predict(tl.tensor(xf)))
+                run["pred"] = qt(np.asarray(est.predict(tl.tensor(xf if based else data_form(sub * ux, form)))) / uy)
             except Exception as ex:
                 run.update(raised=True, exc=type(ex).__name__)
             forms.append(run)
@@ -125,11 +129,11 @@ def exec_reg(case):
         rf = {"raised": False, "x": it(sub), "weight": EMPTY, "vec": EMPTY, "dense": EMPTY, "pred": EMPTY}
         try:
             est.set_params(reg_W=2.0 * c["reg"] / 10.0)
-            est.fit(tl.tensor(X2), tl.tensor(y2))
-            rf["weight"] = qt(est.weight_tensor_)
-            rf["vec"] = qt(est.vec_W_)
-            rf["dense"] = qt(cp_to_tensor(est.cp_weight_) if c["model"] == "cp" else tucker_to_tensor(est.tucker_weight_))
-            rf["pred"] = qt(est.predict(tl.tensor(sub)))
+            est.fit(tl.tensor(X2 * ux), tl.tensor(y2 * uy))
+            rf["weight"] = qt(np.asarray(est.weight_tensor_) * wu)
+            rf["vec"] = qt(np.asarray(est.vec_W_) * wu)
+            rf["dense"] = qt(np.asarray(cp_to_tensor(est.cp_weight_) if c["model"] == "cp" else tucker_to_tensor(est.tucker_weight_)) * wu)
+            rf["pred"] = qt(np.asarray(est.predict(tl.tensor(sub * ux))) / uy)
         except Exception as ex:
             rf.update(raised=True, exc=type(ex).__name__)
         ev["refit"] = rf
@@ -144,7 +148,7 @@ def exec_reg(case):
 def draw_pls(c, seed):
     """Well separated synthetic data: orthonormal scores, strengths 6 / 3 / 1.5, small noise."""
     xs, n, ny = tuple(c["xs"]), c["n"], c["ny"]
-    rng = _rng(seed, 31, n, ny, c["nc"], c["k"], PLSOPT[c["opt"]][2], *xs)
+    rng = _rng(seed, 31, n, ny, c["nc"], c["k"], PLSOPT[c["opt"]][2], c.get("ux", 0) + 100, c.get("uy", 0) + 100, *xs)
     K = 3
     T_, _ = np.linalg.qr(rng.standard_normal((n, K)))
     sig = np.array([6.0, 3.0, 1.5])
@@ -176,27 +180,26 @@ def _new_pls(c):
     return CP_PLSR(c["nc"], tol=tol, n_iter_max=nmax)
 
 
-def _pls_record(est, Xtrain, Xt):
+def _pls_record(est, Xtrain, Xt, ux=1.0, uy=1.0):
+    """Scores in units of X, predictions in units of Y (exact power-of-two rescaling); loadings are unit-free."""
     import tensorly as tl
     return {"raised": False,
-            "scores": qt(est.X_factors[0]),
+            "scores": qt(np.asarray(est.X_factors[0]) / ux),
             "loads": [qt(f) for f in est.X_factors[1:]],
             "yload": qt(est.Y_factors[1]),
-            "transform": qt(est.transform(tl.tensor(Xtrain.copy()))),
-            "pred": qt(est.predict(tl.tensor(Xt.copy())))}
+            "transform": qt(np.asarray(est.transform(tl.tensor(Xtrain.copy()))) / ux),
+            "pred": qt(np.asarray(est.predict(tl.tensor(Xt.copy()))) / uy)}
 
 
-def _fit_pls(c, X, Y, Xtrain_for_transform, Xt, extra=False, perm=None, kbad=0):
+def _fit_pls(c, X, Y, Xtrain_for_transform, Xt, extra=False, perm=None, kbad=0, ux=1.0, uy=1.0):
+    """X, Y, Xt are already in the configuration's units (multiplied by ux / uy); results are logged per unit."""
     import tensorly as tl
     blank = {"scores": EMPTY, "transform": EMPTY, "loads": [], "yload": EMPTY, "pred": EMPTY}
+    qx = lambda a: qt(np.asarray(a) / ux)
+    qy = lambda a: qt(np.asarray(a) / uy)
     try:
         est = _new_pls(c).fit(tl.tensor(X.copy()), tl.tensor(Y.copy()))
-        out = {"raised": False,
-               "scores": qt(est.X_factors[0]),
-               "loads": [qt(f) for f in est.X_factors[1:]],
-               "yload": qt(est.Y_factors[1]),
-               "transform": qt(est.transform(tl.tensor(Xtrain_for_transform.copy()))),
-               "pred": qt(est.predict(tl.tensor(Xt.copy())))}
+        out = _pls_record(est, Xtrain_for_transform, Xt, ux, uy)
     except Exception as ex:
         blank.update({"raised": True, "exc": type(ex).__name__, "msg": str(ex)[:120]})
         return (blank, {"raised": True}) if extra else blank
@@ -204,24 +207,24 @@ def _fit_pls(c, X, Y, Xtrain_for_transform, Xt, extra=False, perm=None, kbad=0):
         return out
     x = {"raised": False, "forms": []}
     try:
-        x["yscores"] = qt(est.Y_factors[0])
+        x["yscores"] = qy(est.Y_factors[0])
         Xa, Ya = tl.tensor(X.copy()), tl.tensor(Y.copy())
         est.transform(Xa, Ya)
         xt, yt = est.transform(Xa, Ya)          # second query with the very same arrays: still the fitted scores
-        x["xt"], x["yt"] = qt(xt), qt(yt)
+        x["xt"], x["yt"] = qx(xt), qy(yt)
         ftx, fty = _new_pls(c).fit_transform(tl.tensor(X.copy()), tl.tensor(Y.copy()))
-        x["ftx"], x["fty"] = qt(ftx), qt(fty)
+        x["ftx"], x["fty"] = qx(ftx), qy(fty)
         for form in ("fortran", "strided"):
             run = {"form": form, "raised": False, "transform": EMPTY, "pred": EMPTY}
             try:
-                run["transform"] = qt(est.transform(tl.tensor(data_form(X, form))))
-                run["pred"] = qt(est.predict(tl.tensor(data_form(Xt, form))))
+                run["transform"] = qx(est.transform(tl.tensor(data_form(X, form))))
+                run["pred"] = qy(est.predict(tl.tensor(data_form(Xt, form))))
             except Exception as ex:
                 run.update(raised=True, exc=type(ex).__name__)
             x["forms"].append(run)
         # a fit that must be rejected, on the same object: other X values, and (a) one sample too many / (b) a 3-mode Y
         rj = {"raised": False, "exc": "", "transform": EMPTY, "pred": EMPTY}
-        Xbad = X + 5.0
+        Xbad = X + 5.0 * ux
         try:
             if kbad % 2 == 0:
                 est.fit(tl.tensor(np.concatenate([Xbad, Xbad[:1]], axis=0)), tl.tensor(Y.copy()))
@@ -229,13 +232,13 @@ def _fit_pls(c, X, Y, Xtrain_for_transform, Xt, extra=False, perm=None, kbad=0):
                 est.fit(tl.tensor(Xbad), tl.tensor(np.reshape(np.stack([Y.reshape(len(Y), -1)] * 2, axis=-1), (len(Y), -1, 2))))
         except Exception as ex:
             rj.update(raised=True, exc=type(ex).__name__)
-        rj["transform"] = qt(est.transform(tl.tensor(X.copy())))
-        rj["pred"] = qt(est.predict(tl.tensor(Xt.copy())))
+        rj["transform"] = qx(est.transform(tl.tensor(X.copy())))
+        rj["pred"] = qy(est.predict(tl.tensor(Xt.copy())))
         x["reject"] = rj
         # ... and fitted again on the permuted samples
         try:
             est.fit(tl.tensor(X[perm].copy()), tl.tensor(Y[perm].copy()))
-            x["refit"] = _pls_record(est, X[perm], Xt)
+            x["refit"] = _pls_record(est, X[perm], Xt, ux, uy)
         except Exception as ex:
             x["refit"] = {"raised": True, "exc": type(ex).__name__}
     except Exception as ex:
@@ -246,11 +249,14 @@ def _fit_pls(c, X, Y, Xtrain_for_transform, Xt, extra=False, perm=None, kbad=0):
 def exec_pls(case):
     c = case["cfg"]
     X, Y, Xt, C, yoff, perm = draw_pls(c, case["seed"])
+    ux, uy = 2.0 ** c["ux"], 2.0 ** c["uy"]          # units: powers of two, every rescaling is exact
+    X, Xt, C, Y = X * ux, Xt * ux, C * ux, Y * uy
+    u = dict(ux=ux, uy=uy)
     ev = {"id": case["id"], "kind": "pls", "cfg": c, "perm": [int(p) for p in perm], "yoff": yoff, "mtest": int(Xt.shape[0])}
-    ev["base"], ev["extra"] = _fit_pls(c, X, Y, X, Xt, extra=True, perm=perm, kbad=c["nc"] + c["ny"])
-    ev["shiftx"] = _fit_pls(c, X + C, Y, X + C, Xt + C)          # constant tensor added to every sample (train and new)
-    ev["shifty"] = _fit_pls(c, X, Y + float(yoff), X, Xt)        # constant added to Y: predictions move by the same offset
-    ev["permfit"] = _fit_pls(c, X[perm], Y[perm], X[perm], Xt)   # samples permuted
+    ev["base"], ev["extra"] = _fit_pls(c, X, Y, X, Xt, extra=True, perm=perm, kbad=c["nc"] + c["ny"], **u)
+    ev["shiftx"] = _fit_pls(c, X + C, Y, X + C, Xt + C, **u)           # constant tensor added to every sample (train and new)
+    ev["shifty"] = _fit_pls(c, X, Y + float(yoff) * uy, X, Xt, **u)    # constant added to Y: predictions move by the same offset
+    ev["permfit"] = _fit_pls(c, X[perm], Y[perm], X[perm], Xt, **u)    # samples permuted
     return ev
 
 
